@@ -21,25 +21,51 @@ def natTok (s : String) : Option Nat :=
   if s.length = 0 ∨ s.length > 9 then none
   else if s.toList.all Char.isDigit then s.toNat? else none
 
+/-- `n` consecutive pieces of `k` bytes. -/
+def chunks (k : Nat) (bs : List Nat) : Nat → List (List Nat)
+  | 0 => []
+  | n + 1 => bs.take k :: chunks k (bs.drop k) n
+
 def byteTok (s : String) : Option Nat := (natTok s).bind fun n => if n < 256 then some n else none
 
 /-- the Brdname array of a board header (`BoardID_t`, IDLEN + 1 bytes); the harness copies the given
 bytes into one, as it copies names into a Filename_t. -/
 def BRDLEN : Nat := 13
 
+/-- one codec op on one argument (`none`: malformed). -/
+def codecOp (op x : String) : Option String :=
+  match op with
+  | "fn2aidu" => (parseHex x).map fun f => toString (fnToAidu f)
+  | "aidu2fn" => x.toNat?.map fun a => toHex (aiduToFN a)
+  | "aidu2aidc" => x.toNat?.map fun a => toHex (aiduToAidc a)
+  | "aidc2aidu" => (parseHex x).map fun cs => showM toString (aidcToAidu cs)
+  | "toaid" => (parseHex x).map fun f => toHex (toArticleID f)
+  | "toraw" => (parseHex x).map fun a => showM toHex (articleIDToRaw a)
+  | _ => none
+
+/-- the model's functions are values: an answer does not depend on what was computed before or after,
+so the answers of a `hold` line are the answers of the single ops. -/
+def holdOp (op : String) (xs : List String) : String :=
+  match xs.mapM (codecOp op) with
+  | some (r :: rs) => " ".intercalate (r :: rs)
+  | _ => "bad-op"
+
 /-- pass `codec` — ops: fn2aidu <hex28> | aidu2fn <dec> | aidu2aidc <dec> | aidc2aidu <hex8> | toaid <hex28> | toraw <hex>
 
 pass `designate` — ops: reset <0|1> <prefix-hex> <displayname-hex>
   actions of the history, acknowledged only (what they did is reported by the observation ops):
     post <board-hex> <user-hex> <k> | crowd <board-hex> | del <board-hex> <k> | list <board-hex>
-    | xpost <board-hex> <k> <xboard-hex>
+    | xpost <board-hex> <k> <xboard-hex> | probe <board-hex> <k> <variant> <entry point>
   observations:
     url <board-hex> <filename-hex28> <line-hex>   => <the line GetWebURL gives for that record> <what the given line resolves to>
     listid <filename-hex28> <owner0>              => <id> <deleted> <filename>
     xref <filename-hex28>                         => <the 8 characters a cross-post header prints>
   pure forms (ptt.GetWebURL / bbs.NewArticleSummaryFromRaw on a constructed header):
     weburl <board-hex> <filename-hex>             => <url>
-    entry <filename-hex> <owner0>                 => <id> <deleted> <filename> -/
+    entry <filename-hex> <owner0>                 => <id> <deleted> <filename>
+    lookup <id-hex> <names-hex, 28 bytes each>    => none | <0-based position>   (cmsys.GetRecord on a .DIR holding these names, in time order)
+  both passes: eq <filename-hex> <filename-hex>   => 0 | 1                        (Filename_t.Eq)
+  codec pass, result aliasing: hold <op> <x1> … <xn> => the n answers of <op>, all read after the last call; conc <goroutines> <iterations> <seed> => ok -/
 def stepC13 (st : Option Cfg) (ws : List String) : Option Cfg × String :=
   match ws with
   | ["reset", a, p, d] =>
@@ -48,6 +74,13 @@ def stepC13 (st : Option Cfg) (ws : List String) : Option Cfg × String :=
       | _, _, _ => (st, "bad-op")
   | _ =>
   let out := match ws with
+    | "hold" :: op :: xs => holdOp op xs
+    | ["conc", g, n, sd] => match natTok g, natTok n, natTok sd with
+        | some gn, some _, some _ => if 1 ≤ gn ∧ gn ≤ 256 then "ok" else "bad-op"
+        | _, _, _ => "bad-op"
+    | ["probe", b, k, v, e] => match st, parseHex b, natTok k, natTok v, natTok e with
+        | some _, some _, some _, some _, some _ => "ok"
+        | _, _, _, _, _ => "bad-op"
     | ["fn2aidu", h] => match parseHex h with
         | some f => toString (fnToAidu f)
         | none => "bad-op"
@@ -94,6 +127,14 @@ def stepC13 (st : Option Cfg) (ws : List String) : Option Cfg × String :=
         | _, _, _ => "bad-op"
     | ["entry", f, o] => match st, parseHex f, byteTok o with
         | some _, some fn, some owner0 => showEntry (listEntry (copyInto FNLEN fn) owner0)
+        | _, _, _ => "bad-op"
+    | ["eq", f, g] => match parseHex f, parseHex g with
+        | some a, some b => if filenameEq (copyInto FNLEN a) (copyInto FNLEN b) then "1" else "0"
+        | _, _ => "bad-op"
+    | ["lookup", i, ns] => match st, parseHex i, parseHex ns with
+        | some _, some id, some names =>
+            if names.length % FNLEN != 0 then "bad-op"
+            else showM (fun r => match r with | none => "none" | some p => toString p) (lookupId (chunks FNLEN names (names.length / FNLEN)) id)
         | _, _, _ => "bad-op"
     | ["xref", f] => match st, parseHex f with
         | some _, some fn => toHex (aidcText (copyInto FNLEN fn))
